@@ -350,3 +350,47 @@ def inline_helpers(body, tu, owner_name):
     if not getattr(tu, 'vocabulary', None):
         return body
     return Inliner(tu).block(body, (owner_name,), 0)
+
+
+# ---- trivial accessors of the same class ------------------------------------------------------------------------------------
+
+def _getter_path(tu, q, cls):
+    """the field path a trivial accessor `T name() const { return mField; }` of class `cls` returns (an E over `this`), else None"""
+    fs = [f for f in tu.funcs.get(q, []) + tu.helpers.get(q, []) if not f.params and f.cls == cls and not f.is_virtual and not f.is_static]
+    if len(fs) != 1 and len({repr(f.raw_body) for f in fs}) != 1:
+        return None
+    if not fs:
+        return None
+    body = fs[0].raw_body
+    if len(body) != 1 or body[0].k != 'return' or body[0].a[0] is None:
+        return None
+    e = body[0].a[0]
+    core = e
+    while core.k == 'cast':
+        core = core.a[2]
+    x = core
+    while x.k == 'field':
+        x = x.a[0]
+    return e if (core.k == 'field' and x.k == 'this') else None
+
+
+def self_getters(body, tu, owner):
+    """`this->name()` with name a trivial accessor of the same class reads the member it returns: both spellings get the IR of
+    the member read (a class that reads its own field through its accessor, or directly, is the same class)"""
+    cls = getattr(owner, 'cls', None)
+    if not cls:
+        return body
+    cache = {}
+
+    def fe(x):
+        if x.k == 'call' and x.a[1] is not None and x.a[1].k == 'this' and not x.a[2] and x.a[0] != owner.name:
+            q = x.a[0]
+            if q not in cache:
+                try:
+                    cache[q] = _getter_path(tu, q, cls)
+                except Exception:
+                    cache[q] = None
+            if cache[q] is not None:
+                return cache[q]
+        return None
+    return [_map_stmt(s, fe) for s in body]
